@@ -241,7 +241,9 @@ func (t *tape) tree(o *itemOpts, depth int) stackitem.Item {
 // buildItem draws one stack item; shape classes: leaf, small tree, wide, deep, big, shared.
 func buildItem(t *tape, plain, invalid bool) stackitem.Item {
 	o := &itemOpts{plain: plain, invalid: invalid, budget: 60}
-	switch t.n(10) {
+	switch t.n(12) {
+	case 10, 11:
+		return buildSharedStraddle(t, plain)
 	case 0:
 		return t.leaf(o)
 	case 1, 2, 3, 4:
@@ -309,6 +311,18 @@ type itemStats struct {
 	unser      bool // contains Interop / Pointer / nil
 	plainLossy bool // plain JSON is documented/obviously lossy for it (Buffer, Struct, non-string keys, non-UTF8, big ints)
 	overflow   bool // count exceeded a sane bound (recursion cut)
+	shared     bool // some compound object is referenced more than once
+	seen       map[stackitem.Item]struct{}
+}
+
+func (st *itemStats) note(it stackitem.Item) {
+	if st.seen == nil {
+		st.seen = map[stackitem.Item]struct{}{}
+	}
+	if _, ok := st.seen[it]; ok {
+		st.shared = true
+	}
+	st.seen[it] = struct{}{}
 }
 
 func statItem(it stackitem.Item, d int, st *itemStats) {
@@ -335,6 +349,7 @@ func statItem(it stackitem.Item, d int, st *itemStats) {
 			st.plainLossy = true
 		}
 	case *stackitem.Struct:
+		st.note(it)
 		st.plainLossy = true
 		if d+1 > st.depth {
 			st.depth = d + 1
@@ -343,6 +358,7 @@ func statItem(it stackitem.Item, d int, st *itemStats) {
 			statItem(e, d+1, st)
 		}
 	case *stackitem.Array:
+		st.note(it)
 		if d+1 > st.depth {
 			st.depth = d + 1
 		}
@@ -350,6 +366,7 @@ func statItem(it stackitem.Item, d int, st *itemStats) {
 			statItem(e, d+1, st)
 		}
 	case *stackitem.Map:
+		st.note(it)
 		if d+1 > st.depth {
 			st.depth = d + 1
 		}
@@ -516,4 +533,122 @@ func refSerialize(b []byte, it stackitem.Item, h *hostile, protected bool) ([]by
 		return b, true
 	}
 	return b, false
+}
+
+// mkCompound makes ONE compound object of the given kind (0 Array, 1 Map, 2 Struct) that holds `entries` sub-items
+// (a Map gets entries/2 pairs, so entries is rounded down to an even number there) and returns it with the number
+// of items it stands for (itself included).
+func mkCompound(kind, entries int, sub func(i int) stackitem.Item) (stackitem.Item, int) {
+	switch kind {
+	case 1:
+		m := stackitem.NewMap()
+		cnt := 1
+		for i := 0; i < entries/2; i++ {
+			v := sub(i)
+			var st itemStats
+			statItem(v, 0, &st)
+			m.Add(stackitem.NewByteArray([]byte("k"+itoa(i))), v)
+			cnt += 1 + st.count
+		}
+		return m, cnt
+	default:
+		arr := make([]stackitem.Item, entries)
+		cnt := 1
+		for i := range arr {
+			arr[i] = sub(i)
+			var st itemStats
+			statItem(arr[i], 0, &st)
+			cnt += st.count
+		}
+		if kind == 2 {
+			return stackitem.NewStruct(arr), cnt
+		}
+		return stackitem.NewArray(arr), cnt
+	}
+}
+
+func itoa(i int) string {
+	if i == 0 {
+		return "0"
+	}
+	var b []byte
+	for ; i > 0; i /= 10 {
+		b = append([]byte{byte('0' + i%10)}, b...)
+	}
+	return string(b)
+}
+
+// buildSharedStraddle: one compound object (Array, Map or Struct) referenced many times inside one item, with the total
+// number of items (every reference counts in full, as the deserializer will see it) placed exactly at a drawn
+// target around MaxSerialized. The serializers keep a cache of compounds already written and charge the cached item
+// count for every further reference; this is the shape where that accounting decides acceptance.
+func buildSharedStraddle(t *tape, plain bool) stackitem.Item {
+	kinds := 3
+	if plain {
+		kinds = 2 // Array, Map
+	}
+	target := stackitem.MaxSerialized + []int{0, -1, 1, -2, 2, -3, 3, -700, 5}[t.n(9)]
+	innerKind := t.n(kinds)
+	leaf := func(int) stackitem.Item { return stackitem.NewBool(true) }
+	var inner stackitem.Item
+	var c int
+	switch t.n(5) {
+	case 0: // smallest compound: one entry / one pair
+		inner, c = mkCompound(innerKind, 1+innerKind%2, leaf)
+	case 1: // a few entries
+		inner, c = mkCompound(innerKind, 2+t.n(9), leaf)
+	case 2: // big compound referenced 2-3 times
+		inner, c = mkCompound(innerKind, 600+t.n(130), leaf)
+	case 3: // empty compound
+		inner, c = mkCompound(innerKind, 0, leaf)
+	default: // nested sharing: the shared compound itself consists of references to another shared compound
+		inner2, _ := mkCompound(t.n(kinds), 1+t.n(4), leaf)
+		inner, c = mkCompound(innerKind, 2+t.n(12), func(int) stackitem.Item { return inner2 })
+	}
+	outerKind := t.n(kinds)
+	per := c // items one reference costs in the outer container
+	if outerKind == 1 {
+		per = c + 1 // plus the key
+	}
+	k := (target - 1) / per
+	if k > 1 && t.n(4) == 0 {
+		k -= t.n(k/2 + 1) // sometimes fewer references, rest filled with plain leaves
+	}
+	rest := target - 1 - k*per
+	var outer stackitem.Item
+	switch outerKind {
+	case 1:
+		m := stackitem.NewMap()
+		for i := 0; i < k; i++ {
+			m.Add(stackitem.NewByteArray([]byte("r"+itoa(i))), inner)
+		}
+		// a map entry costs two items: fill an odd remainder through one more level
+		for i := 0; i+1 < rest; i += 2 {
+			m.Add(stackitem.NewByteArray([]byte("f"+itoa(i))), stackitem.Null{})
+		}
+		outer = m
+	default:
+		arr := make([]stackitem.Item, 0, k+rest)
+		mixed := t.bool()
+		for i := 0; i < k; i++ {
+			arr = append(arr, inner)
+			if mixed && rest > 0 { // references interleaved with fresh leaves
+				arr = append(arr, stackitem.Null{})
+				rest--
+			}
+		}
+		for ; rest > 0; rest-- {
+			arr = append(arr, stackitem.Null{})
+		}
+		if outerKind == 2 {
+			outer = stackitem.NewStruct(arr)
+		} else {
+			outer = stackitem.NewArray(arr)
+		}
+	}
+	if t.n(4) == 0 && !plain {
+		// one more level, so that the shared object is met again after the container that cached it is closed
+		return stackitem.NewStruct([]stackitem.Item{outer})
+	}
+	return outer
 }
